@@ -2,7 +2,7 @@
     total order ([sp_laws] of SplineTheory.v), every degree, every number of cells and points. *)
 From Coq Require Import List Arith Lia ZArith Bool Field Ring Setoid.
 Import ListNotations.
-From PGV Require Import BasisCoxDeBoor FindSpan CubicUniform Sums SplineModel SplineTheory GalerkinModel.
+From PGV Require Import BasisCoxDeBoor FindSpan CubicUniform Sums SplineModel SplineTheory QuadTheory EndValueTheory MarsdenTheory GalerkinModel.
 
 Section GkTheory.
 Variable F : Type.
@@ -610,6 +610,194 @@ Proof.
     destruct (Nat.eqb_spec (lo + (hi - lo + k)) (nb - 1)); [rewrite orb_true_r; ring|lia].
   - intros k Hk. rewrite gk_store_nth by lia.
     destruct (Nat.leb_spec lo k); [lia|]. cbn [andb]. destruct (Nat.eqb_spec k 0); [cbn [orb]; ring|lia].
+Qed.
+
+(* ---------------------------------------------------------------------------------------- *)
+(** * Dirichlet values (clamped end values of C08) *)
+
+(** dirichlet_value_zero: on the clamped radial space the solution spline VANISHES at a Dirichlet end
+    (S(a) = c_0, S(b) = c_last by ip_clamped_end_eval, and these coefficients are 0) *)
+Theorem gk_dirichlet_value_zero S lN uN m buf rhs c knots p :
+  ip_clamped F K knots p -> (1 <= p)%nat -> gka_nb F S = (length knots - p - 1)%nat ->
+  gk_solve_rhs F K S lN uN m buf rhs = SpOk c ->
+  (gk_memZ m lN = false -> sp_nu_eval_1d_scalar F K (sp_kn F K knots p) knots p c 0 = SpOk 0) /\
+  (gk_memZ m uN = false ->
+   sp_nu_eval_1d_scalar F K (sp_kn F K knots (length knots - 1 - p)) knots p c 0 = SpOk 0).
+Proof.
+  intros Hc Hp Hnb H. pose proof Hc as [_ [Hlen _]].
+  destruct (gk_dirichlet_coeffs S lN uN m buf rhs c ltac:(lia) H) as [Hl [H0 H1]].
+  destruct (ip_clamped_end_eval F K HK knots p Hc Hp c ltac:(lia)) as [Ea Eb]. split.
+  - intros E. rewrite Ea, (H0 E). reflexivity.
+  - intros E. rewrite Eb. replace (length knots - p - 2)%nat with (gka_nb F S - 1)%nat by lia. rewrite (H1 E). reflexivity.
+Qed.
+
+(* ---------------------------------------------------------------------------------------- *)
+(** * manufactured solutions: the algebraic core *)
+Lemma gk_restrict_sum nb lo hi (g : nat -> F) : (lo <= hi)%nat -> (hi <= nb)%nat ->
+  (forall b, (b < lo \/ hi <= b)%nat -> g b = 0) -> gsum nb g = gsum (hi - lo) (fun j => g (lo + j)%nat).
+Proof.
+  intros H1 H2 Hz. transitivity (gsum (lo + ((hi - lo) + (nb - hi)))%nat g); [f_equal; lia|].
+  rewrite gs_split, gs_split. rewrite (gs_zero lo), (gs_zero (nb - hi)); [ring| |].
+  - intros k Hk. apply Hz. lia.
+  - intros k Hk. apply Hz. lia.
+Qed.
+
+Section Manufactured.
+Variables (nc nq : nat).
+Variable phi : nat -> nat -> nat -> nat -> F.
+Variables W X Av Bv Cv Dv : nat -> nat -> F.
+Variable msq : F.
+
+(** the weak form applied to a function given by its values U0 and the values U1 of its derivative at the points *)
+Definition gk_weak_u (U0 U1 : nat -> nat -> F) (a : nat) : F :=
+  gsum nc (fun c => gsum nq (fun q =>
+    W c q * (spopp K (Av c q) * U1 c q * (phi 1%nat a c q * X c q + phi 0%nat a c q)
+             + Bv c q * U1 c q * phi 0%nat a c q * X c q
+             + Cv c q * U0 c q * phi 0%nat a c q * X c q
+             - msq * (Dv c q * U0 c q * phi 0%nat a c q * X c q)))).
+
+(** the rows of the Galerkin matrix applied to a coefficient vector = the weak form of its spline *)
+Lemma gk_weak_bilinear nb (cu : nat -> F) a :
+  gsum nb (fun b => gk_weak nc nq phi W X Av Bv Cv Dv msq a b * cu b)
+  = gk_weak_u (fun c q => gsum nb (fun b => cu b * phi 0%nat b c q)) (fun c q => gsum nb (fun b => cu b * phi 1%nat b c q)) a.
+Proof.
+  unfold gk_weak, gk_weak_u.
+  rewrite (gs_ext nb _ (fun b => gsum nc (fun c => gsum nq (fun q =>
+     W c q * (spopp K (Av c q) * (phi 1%nat a c q * X c q + phi 0%nat a c q) + Bv c q * phi 0%nat a c q * X c q) * (cu b * phi 1%nat b c q)
+     + W c q * (Cv c q * phi 0%nat a c q * X c q - msq * (Dv c q * phi 0%nat a c q * X c q)) * (cu b * phi 0%nat b c q))))).
+  2:{ intros b _. rewrite <- gs_scale_r. apply gs_ext. intros c _. rewrite <- gs_scale_r. apply gs_ext. intros q _. ring. }
+  rewrite (gs_swap nb nc). apply gs_ext. intros c _. rewrite (gs_swap nb nq). apply gs_ext. intros q _.
+  rewrite gs_lin2. ring.
+Qed.
+End Manufactured.
+
+(** Manufactured solution, algebraic core.  Let cu be a coefficient vector that vanishes on the Dirichlet sides, whose
+    spline takes the values u0 and whose derivative takes the values u1 at the quadrature points.  If
+      (IBP)  for every test function B_a that is an unknown,
+               sum w (-A) u1 (B_a' r + B_a)  =  sum w A u2 B_a r        (integration by parts at quadrature level:
+               exactness of the rule on every cell + continuity of B_a + vanishing boundary term), and
+      (EQ)   A u2 + B u1 + C u0 - m^2 D u0 = E rho at every quadrature point (the strong equation),
+    then cu satisfies the linear system of the mode, hence (uniqueness of the checked solve) the solver returns cu. *)
+Theorem gk_manufactured_core knots p nc nq pts wts mf At Bt Ct Dt Et S lN uN m buf rhot c (cu : nat -> F)
+  (u0 u1 u2 : nat -> nat -> F) :
+  gk_assemble F K knots p nc nq pts wts mf At Bt Ct Dt Et = SpOk S ->
+  gk_solve_mode_func F K S lN uN m buf nc nq pts wts mf rhot = SpOk c ->
+  (2 <= nc + p)%nat ->
+  (forall b, (b < gk_coeff_lo lN m \/ gk_coeff_hi (nc + p) uN m <= b)%nat -> cu b = 0) ->
+  (forall c q, (c < nc)%nat -> (q < nq)%nat ->
+     gsum (nc + p) (fun b => cu b * gk_phi F K p (gka_tab F S) 0 b c q) = u0 c q) ->
+  (forall c q, (c < nc)%nat -> (q < nq)%nat ->
+     gsum (nc + p) (fun b => cu b * gk_phi F K p (gka_tab F S) 1 b c q) = u1 c q) ->
+  (forall a, (gk_coeff_lo lN m <= a < gk_coeff_hi (nc + p) uN m)%nat ->
+     gsum nc (fun c => gsum nq (fun q => gk_Wf wts mf c q * (spopp K (gk_at F K At c q) * u1 c q
+        * (gk_phi F K p (gka_tab F S) 1 a c q * gk_at F K pts c q + gk_phi F K p (gka_tab F S) 0 a c q))))
+     = gsum nc (fun c => gsum nq (fun q => gk_Wf wts mf c q * (gk_at F K At c q * u2 c q
+        * gk_phi F K p (gka_tab F S) 0 a c q * gk_at F K pts c q)))) ->
+  (forall c q, (c < nc)%nat -> (q < nq)%nat ->
+     gk_at F K At c q * u2 c q + gk_at F K Bt c q * u1 c q + gk_at F K Ct c q * u0 c q
+     - gk_msq F K m * (gk_at F K Dt c q * u0 c q) = gk_at F K Et c q * gk_at F K rhot c q) ->
+  forall i, (i < nc + p)%nat -> nth i c 0 = cu i.
+Proof.
+  intros Hasm Hsol Hnb Hz HU0 HU1 Hibp Heq.
+  assert (Hf : gka_nb F S = (nc + p)%nat /\ gka_p F S = p /\ gka_E F S = Et).
+  { destruct (gk_assemble_inv _ _ _ _ _ _ _ _ _ _ _ _ _ Hasm) as [T [_ [_ ->]]]. cbv zeta. repeat split. }
+  destruct Hf as [Enb [Ep EE]].
+  unfold gk_solve_mode_func, gk_solve_rhs in Hsol. cbv zeta in Hsol. rewrite Enb in Hsol.
+  set (lo := gk_coeff_lo lN m) in *. set (hi := gk_coeff_hi (nc + p) uN m) in *.
+  pose proof (gk_coeff_lo_le1 lN m) as Hlo. pose proof (gk_coeff_hi_ge (nc + p) uN m) as Hhi. fold lo in Hlo. fold hi in Hhi.
+  assert (Hhn : (hi <= nc + p)%nat) by (unfold hi, gk_coeff_hi; lia).
+  destruct (gk_lin_solve F K (hi - lo) _ _) as [sol| | | |] eqn:E1; cbn [sp_bind] in Hsol; try discriminate.
+  inversion Hsol as [Hc]. clear Hsol.
+  destruct (gk_lin_solve_spec _ _ _ _ E1) as [_ [_ Huniq]].
+  set (y := map (fun j => cu (lo + j)%nat) (seq 0 (hi - lo))).
+  assert (Hy : forall j, (j < hi - lo)%nat -> nth j y 0 = cu (lo + j)%nat).
+  { intros j Hj. unfold y. rewrite (gk_nth_map_seq (fun j0 => cu (lo + j0)%nat) 0 _ 0 j Hj). reflexivity. }
+  assert (Hsys : gk_solves (hi - lo) (gk_mode_matrix F K S m lo hi) y
+                   (gk_rhs_func F K S nc nq pts wts mf rhot lo hi)).
+  { intros r Hr. unfold gk_dot.
+    rewrite (gk_rhs_func_spec S nc nq pts wts mf rhot lo hi r Hr). rewrite Ep, EE.
+    transitivity (gsum (nc + p) (fun b => gk_stiff F K S m (lo + r) b * cu b)).
+    - rewrite (gk_restrict_sum (nc + p) lo hi (fun b => gk_stiff F K S m (lo + r) b * cu b)); [|lia|lia|].
+      2:{ intros b Hb. rewrite (Hz b Hb). ring. }
+      apply gs_ext. intros j Hj. rewrite (Hy j Hj). f_equal. unfold gk_mode_matrix.
+      rewrite (gk_nth_map_seq (fun a => map (fun b => gk_stiff F K S m a b) (seq lo (hi - lo))) [] _ _ r Hr).
+      rewrite (gk_nth_map_seq (fun b => gk_stiff F K S m (lo + r) b) 0 _ _ j Hj). reflexivity.
+    - rewrite (gs_ext (nc + p) _ (fun b => gk_weak nc nq (gk_phi F K p (gka_tab F S)) (gk_Wf wts mf) (gk_at F K pts) (gk_at F K At)
+                  (gk_at F K Bt) (gk_at F K Ct) (gk_at F K Dt) (gk_msq F K m) (lo + r) b * cu b)).
+      2:{ intros b Hb. rewrite (gk_stiffness_is_weak_form _ _ _ _ _ _ _ _ _ _ _ _ _ m (lo + r)%nat b Hasm) by lia. reflexivity. }
+      rewrite gk_weak_bilinear. unfold gk_weak_u.
+      transitivity (gsum nc (fun c0 => gsum nq (fun q =>
+          gk_Wf wts mf c0 q * (spopp K (gk_at F K At c0 q) * u1 c0 q
+             * (gk_phi F K p (gka_tab F S) 1 (lo + r) c0 q * gk_at F K pts c0 q + gk_phi F K p (gka_tab F S) 0 (lo + r) c0 q))
+          + gk_Wf wts mf c0 q * (gk_at F K Bt c0 q * u1 c0 q + gk_at F K Ct c0 q * u0 c0 q - gk_msq F K m * (gk_at F K Dt c0 q * u0 c0 q))
+            * (gk_phi F K p (gka_tab F S) 0 (lo + r) c0 q * gk_at F K pts c0 q)))).
+      { apply gs_ext. intros c0 Hc0. apply gs_ext. intros q Hq. rewrite (HU0 c0 q Hc0 Hq), (HU1 c0 q Hc0 Hq). ring. }
+      rewrite (gs_ext nc _ (fun c0 => gsum nq (fun q => gk_Wf wts mf c0 q * (spopp K (gk_at F K At c0 q) * u1 c0 q
+             * (gk_phi F K p (gka_tab F S) 1 (lo + r) c0 q * gk_at F K pts c0 q + gk_phi F K p (gka_tab F S) 0 (lo + r) c0 q)))
+          + gsum nq (fun q => gk_Wf wts mf c0 q * (gk_at F K Bt c0 q * u1 c0 q + gk_at F K Ct c0 q * u0 c0 q - gk_msq F K m * (gk_at F K Dt c0 q * u0 c0 q))
+            * (gk_phi F K p (gka_tab F S) 0 (lo + r) c0 q * gk_at F K pts c0 q)))) by (intros; apply gs_add).
+      rewrite gs_add. rewrite (Hibp (lo + r)%nat ltac:(lia)). rewrite <- gs_add.
+      apply gs_ext. intros c0 Hc0. rewrite <- gs_add. apply gs_ext. intros q Hq.
+      transitivity (gk_Wf wts mf c0 q * gk_phi F K p (gka_tab F S) 0 (lo + r) c0 q * gk_at F K pts c0 q
+                    * (gk_at F K Et c0 q * gk_at F K rhot c0 q)); [|ring].
+      rewrite <- (Heq c0 q Hc0 Hq). ring. }
+  intros i Hi. try rewrite <- Hc. rewrite gk_store_nth by exact Hi.
+  destruct (Nat.leb_spec lo i), (Nat.ltb_spec i hi); cbn [andb].
+  - rewrite <- (Huniq y Hsys (i - lo)%nat) by lia. rewrite Hy by lia. f_equal. lia.
+  - destruct (Nat.eqb_spec i (nc + p - 1)); [rewrite orb_true_r; symmetry; apply Hz; lia|lia].
+  - destruct (Nat.eqb_spec i 0); [cbn [orb]; symmetry; apply Hz; lia|lia].
+  - destruct (Nat.eqb_spec i 0); [cbn [orb]; symmetry; apply Hz; lia|lia].
+Qed.
+
+(* ---------------------------------------------------------------------------------------- *)
+(** * the spline of a polynomial at the quadrature points (Marsden coefficients of C08) *)
+Lemma gk_mapM_nth {A B : Type} (f : A -> sp_res B) da db : forall l r i,
+  sp_mapM f l = SpOk r -> (i < length l)%nat -> f (nth i l da) = SpOk (nth i r db).
+Proof.
+  induction l as [|x l IH]; intros r i H Hi; [cbn in Hi; lia|]. cbn [sp_mapM] in H.
+  destruct (f x) as [y| | | |] eqn:Ex; cbn [sp_bind] in H; try discriminate.
+  destruct (sp_mapM f l) as [ys| | | |] eqn:El; cbn [sp_bind] in H; try discriminate.
+  inversion H. destruct i as [|i]; cbn [nth]; [exact Ex|]. apply IH; [reflexivity|cbn in Hi; lia].
+Qed.
+
+Lemma gk_point_values knots p x s v d : gk_point F K knots p x = SpOk (s, (v, d)) -> v = sp_A22 F K knots p x s.
+Proof.
+  unfold gk_point. destruct (sp_nu_find_span F K knots p x) as [s0| | | |]; cbn [sp_bind]; try discriminate.
+  unfold sp_nu_basis_funs.
+  destruct ((p <=? s0)%nat && (s0 + p <? length knots)%nat); cbn [sp_bind]; try discriminate.
+  destruct (sp_denoms_ok F K (sp_kn F K knots) x s0 p); cbn [sp_bind]; try discriminate.
+  destruct (sp_nu_basis_funs_1st_der F K knots p x s0) as [d0| | | |]; cbn [sp_bind]; try discriminate.
+  intros H. inversion H. reflexivity.
+Qed.
+
+(** at a quadrature point the spline with the Marsden coefficients of a polynomial of degree <= p takes the value of
+    the polynomial: the hypothesis "u0" of gk_manufactured_core holds with cu = ip_poly_coeff *)
+Theorem gk_poly_at_nodes knots p nc nq pts wts mf At Bt Ct Dt Et Sv a c q :
+  gk_assemble F K knots p nc nq pts wts mf At Bt Ct Dt Et = SpOk Sv ->
+  ip_clamped F K knots p -> length knots = (nc + 2 * p + 1)%nat -> (length a <= S p)%nat ->
+  (c < nc)%nat -> (q < nq)%nat -> (c < length pts)%nat -> (q < length (nth c pts []))%nat ->
+  gsum (nc + p) (fun b => ip_poly_coeff F K knots p a b * gk_phi F K p (gka_tab F Sv) 0 b c q)
+  = ip_polyval F K a (gk_at F K pts c q).
+Proof.
+  intros Hasm Hcl Hlen Ha Hc Hq Hcl' Hql.
+  destruct (gk_assemble_inv _ _ _ _ _ _ _ _ _ _ _ _ _ Hasm) as [T [HT [Hs ->]]]. cbv zeta. cbn [gka_tab].
+  pose proof Hcl as [Hsorted [_ [_ [_ Hst]]]].
+  unfold gk_table in HT.
+  pose proof (gk_mapM_nth (fun row => sp_mapM (gk_point F K knots p) row) [] [] pts T c HT Hcl') as Hrow.
+  pose proof (gk_mapM_nth (gk_point F K knots p) 0 (0%nat, ([], [])) (nth c pts []) (nth c T []) q Hrow Hql) as Hpt.
+  unfold gk_spans_ok in Hs. rewrite forallb_forall in Hs. specialize (Hs c). rewrite in_seq in Hs. specialize (Hs ltac:(lia)).
+  rewrite forallb_forall in Hs. specialize (Hs q). rewrite in_seq in Hs. specialize (Hs ltac:(lia)). apply Nat.eqb_eq in Hs.
+  destruct (nth q (nth c T []) (0%nat, ([], []))) as [s [v d]] eqn:En. cbn [fst] in Hs. subst s.
+  pose proof (gk_point_values _ _ _ _ _ _ Hpt) as Ev.
+  assert (Hsp : sp_span_ok F K knots (p + c)). { apply Hst. lia. }
+  unfold gk_at. rewrite <- (ip_poly_local F K HK knots p a Hsorted Ha (nth q (nth c pts []) 0) (p + c)%nat Hsp ltac:(lia)).
+  rewrite (gk_restrict_sum (nc + p) c (c + S p)); [| lia | lia |].
+  - replace (c + S p - c)%nat with (S p) by lia. apply gs_ext. intros j Hj.
+    unfold gk_phi. rewrite En. unfold gk_pick.
+    destruct (Nat.leb_spec (p + c - p) (c + j)); [|lia]. destruct (Nat.leb_spec (c + j) (p + c)); [|lia]. cbn [andb].
+    replace (c + j - (p + c - p))%nat with j by lia. replace (p + c - p + j)%nat with (c + j)%nat by lia.
+    rewrite Ev. reflexivity.
+  - intros b Hb. unfold gk_phi. rewrite En. rewrite gk_pick_outside by lia. ring.
 Qed.
 
 End GkTheory.
